@@ -21,8 +21,7 @@ def feasible(assertions):
     s = z3.Solver()
     s.set("timeout", FEAS_TIMEOUT_MS)
     t0 = time.time()
-    for a in assertions:
-        s.add(a)
+    s.add(z3.And(assertions) if len(assertions) > 1 else assertions)
     r = s.check()
     STATS["feas_calls"] += 1
     STATS["feas_time"] += time.time() - t0
@@ -107,8 +106,7 @@ def check(assertions, want_model=True):
     t0 = time.time()
     s = z3.Solver()
     s.set("timeout", Z3_TIMEOUT_MS)
-    for a in assertions:
-        s.add(a)
+    s.add(z3.And(assertions) if len(assertions) > 1 else assertions)
     r = s.check()
     secs = time.time() - t0
     STATS["prove_calls"] += 1
